@@ -405,4 +405,38 @@ theorem preNonTotal_timeFormatted : PreNonTotal classifyTimeFormatted := by
     · simp at h; subst h; simp at hp
     · cases h
 
+/-! ## `search` for patterns that start with `.*` -/
+
+/-- `f` holds of some suffix of the text -/
+def anySuffix (f : List Char → Bool) : List Char → Bool
+  | [] => f []
+  | c :: cs => f (c :: cs) || anySuffix f cs
+
+theorem starM_any_isSome {α : Type} (s : List Char) (k : List Char → Option α) :
+    (starM anyChar s k).isSome = anySuffix (fun t => (k t).isSome) s := by
+  induction s with
+  | nil => simp [starM, anySuffix]
+  | cons c cs ih =>
+    simp only [starM, anyChar, if_true, anySuffix]
+    rw [← ih]
+    cases h : starM anyChar cs k with
+    | none => simp
+    | some r => simp
+
+/-- a pattern that starts with `.*` matches somewhere in the line iff it matches at its start:
+what `Re.searchDotStar` (offset 0 only) relies on -/
+theorem search_dotStar (r : Re) (s : List Char) :
+    (Re.seq (.star anyChar) r).search s = (Re.seq (.star anyChar) r).searchDotStar s := by
+  have hp : ∀ t : List Char, ((Re.seq (.star anyChar) r).pmatch t).isSome =
+      anySuffix (fun u => (r.m u [] (fun _ c => some c)).isSome) t := by
+    intro t
+    simp only [Re.pmatch, Re.m]
+    exact starM_any_isSome t _
+  unfold Re.searchDotStar
+  induction s with
+  | nil => simp [Re.search]
+  | cons c cs ih =>
+    simp only [Re.search, ih, hp, anySuffix]
+    cases (r.m (c :: cs) [] (fun _ c => some c)).isSome <;> simp
+
 end RB.Adapters
